@@ -492,6 +492,8 @@ def run(rep: Report, tier: str) -> None:
 			r4.check(both, 'integer:hex-prefix-case', (EVAL, cl.lineno), f'on_integer recognises a hexadecimal literal by `{txt}` (lower-case prefix only) while the grammar terminal HEX_NUMBER admits `0X` as well: `A = 0X1F` is decoded in base 10, the ValueError ends the run with Errors.Fatal instead of the value 31', txt)
 	rule_literalise(rep, idx)
 	rule_member_refs_only(rep, idx)
+	rule_member_lookup_exact(rep, idx)
+	rule_str_cast_validates(rep, idx)
 
 
 def rule_literalise(rep: Report, idx: SourceIndex) -> None:
@@ -598,3 +600,95 @@ def rule_member_refs_only(rep: Report, idx: SourceIndex, rule_id: str = 'C17/onl
 		r.check(ok, f'enum-arm#{n_}', (PY2CPP, ret.lineno), f'is_relay_literalizer literalises `.value` / `.name` for EVERY receiver whose type is an enum (`{unparse(ret)[:90]}` under {[unparse(c_)[:50] for c_ in flat][:4]}): for a variable of enum type the constant is looked up by the spelling of the variable — `def f(c: Color): return c.value` emits the value of the member called `c` (2 for every argument; IndexError if there is none), `obj.color.name` emits "color"', unparse(ret)[:120])
 	if n_ == 0:
 		r.skip('is_relay_literalizer', f.where, 'no return of is_relay_literalizer is decided by an Enum test')
+
+
+def rule_member_lookup_exact(rep: Report, idx: SourceIndex) -> None:
+	"""`E.X.value` is folded from the value expression of the member NAMED X: Enum.var_value must pick the member whose name EQUALS the requested one.
+	A suffix / prefix / substring test picks `READ` for `THREAD` (the first declared member that matches) and folds another member's value — a
+	different value, silently. Also the name handed over must be the last element of the receiver (`DSN.right(<receiver>.domain_name, 1)`), not the
+	dotted path."""
+	r = rep.rule('C17/member-value-looked-up-by-whole-name', 'Enum.var_value selects the member by equality of its name with the requested name, and the evaluator / Py2Cpp request the last element of the receiver path', floor=2)
+	m = idx.mod('rogw/tranp/syntax/node/definition/statement_compound.py')
+	en = m.cls('Enum')
+	f = en.method('var_value') if en else None
+	if f is None:
+		r.skip('Enum.var_value', (m.relpath, 1), 'Enum.var_value vanished')
+		return
+	p_ = f.params()[1] if len(f.params()) > 1 else 'var_name'
+	tests = [n for n in ast.walk(f.node) if (isinstance(n, ast.Compare) and any(isinstance(x, ast.Name) and x.id == p_ for x in ast.walk(n))) or (isinstance(n, ast.Call) and isinstance(n.func, ast.Attribute) and n.func.attr in ('endswith', 'startswith', 'find', 'count', 'index') and (p_ in unparse(n)))]
+	if not tests:
+		r.skip('Enum.var_value', f.where, f'var_value no longer tests `{p_}` against the member names')
+	for t in tests:
+		exact = isinstance(t, ast.Compare) and len(t.ops) == 1 and isinstance(t.ops[0], ast.Eq)
+		r.check(exact, f'Enum.var_value:{unparse(t)[:40]}', (m.relpath, t.lineno), f'Enum.var_value picks the member with `{unparse(t)[:80]}` — not an equality of names: with members READ = 1 ... THREAD = 9 the lookup of THREAD finds READ first (its name is a suffix) and `Access.THREAD.value` folds to 1', unparse(t)[:100])
+	# the callers hand over the member name, i.e. the last path element of the receiver
+	for rel, q in (('rogw/tranp/implements/transpiler/evaluator.py', 'LiteralEvaluator.on_relay'), ('rogw/tranp/implements/cpp/transpiler/py2cpp.py', 'Py2Cpp.on_relay')):
+		g = idx.mod(rel).func(q)
+		if g is None:
+			r.skip(q, (rel, 1), f'{q} vanished')
+			continue
+		sites = [c_ for c_ in ast.walk(g.node) if isinstance(c_, ast.Call) and isinstance(c_.func, ast.Attribute) and c_.func.attr == 'var_value' and len(c_.args) == 1]
+		if not sites:
+			r.skip(q, g.where, f'{q} no longer calls Enum.var_value')
+		for c_ in sites:
+			a = deref(g.node, c_.args[0]) if isinstance(c_.args[0], ast.Name) else c_.args[0]
+			last = isinstance(a, ast.Call) and unparse(a.func) == 'DSN.right' and len(a.args) == 2 and isinstance(a.args[1], ast.Constant) and a.args[1].value == 1
+			last = last or (isinstance(a, ast.Attribute) and a.attr == 'tokens' and unparse(a.value).endswith('.prop'))
+			r.check(last, f'{q}:member-name', (rel, c_.lineno), f'{q} asks Enum.var_value for `{unparse(a)[:60]}`, which is not the last element of the receiver path (DSN.right(<receiver>.domain_name, 1) / <receiver>.prop.tokens): a dotted name never equals a member name', unparse(c_)[:100])
+
+
+def rule_str_cast_validates(rep: Report, idx: SourceIndex) -> None:
+	"""Handlers that ignore a node (a member reference without `.value`, a non-enum variable) return '' — a str that is not a quoted literal. The `str`
+	cast hands a str argument back unchanged; unless it checks the quoted form first (as the concatenation does with _allow_string), `X = str(E.A)`
+	folds to '' where CPython evaluates 'E.A': a different value instead of a refusal. Decided propositionally: the return of the unchanged argument
+	must be unreachable under {argument is a str, _allow_string(argument) is False}."""
+	from vlib.match import path_conditions
+	r = rep.rule('C17/str-cast-returns-only-quoted-literals', 'in LiteralEvaluator.on_func_call the `str` arm returns its str argument unchanged only where _allow_string(argument) is known to hold', floor=1)
+	m = idx.mod(EVAL)
+	f = m.func('LiteralEvaluator.on_func_call')
+	if f is None:
+		r.skip('on_func_call', (EVAL, 1), 'LiteralEvaluator.on_func_call vanished')
+		return
+	args_p = f.params()[-1]
+
+	def is_arg(e: ast.AST) -> bool:
+		e = deref(f.node, e) if isinstance(e, ast.Name) else e
+		return unparse(e) == f'{args_p}[0]'
+
+	def val(e: ast.AST, env):
+		"""truth of a condition under env = {'str': bool, 'allow': bool}; None if it speaks about something else"""
+		if isinstance(e, ast.Name):
+			d_ = deref(f.node, e)
+			return val(d_, env) if d_ is not e else None
+		if isinstance(e, ast.UnaryOp) and isinstance(e.op, ast.Not):
+			v = val(e.operand, env)
+			return None if v is None else (not v)
+		if isinstance(e, ast.BoolOp):
+			vs = [val(v, env) for v in e.values]
+			if isinstance(e.op, ast.And):
+				return False if False in vs else (True if all(v is True for v in vs) else None)
+			return True if True in vs else (False if all(v is False for v in vs) else None)
+		if isinstance(e, ast.Call) and unparse(e.func) == 'isinstance' and len(e.args) == 2 and is_arg(e.args[0]) and unparse(e.args[1]) == 'str':
+			return env['str']
+		if isinstance(e, ast.Call) and isinstance(e.func, ast.Attribute) and e.func.attr == '_allow_string' and e.args and is_arg(e.args[0]):
+			return env['allow']
+		return None
+
+	sites = []
+	for ret in [x for x in ast.walk(f.node) if isinstance(x, ast.Return) and x.value is not None]:
+		conds = list(path_conditions(f.node, ret))
+		if not any("== 'str'" in unparse(c_) and p_ for c_, p_ in conds):
+			continue
+		# the returned expression: the argument itself, or a conditional expression one of whose branches is the argument
+		branches = [(ret.value, [])]
+		if isinstance(ret.value, ast.IfExp):
+			branches = [(ret.value.body, [(ret.value.test, True)]), (ret.value.orelse, [(ret.value.test, False)])]
+		for e, extra in branches:
+			if is_arg(e):
+				sites.append((ret, conds + extra))
+	if not sites:
+		r.skip('str-arm', f.where, 'the `str` arm of on_func_call no longer returns its argument unchanged')
+	for ret, conds in sites:
+		env = {'str': True, 'allow': False}
+		reachable = all(val(c_, env) in (None, p_) for c_, p_ in conds)
+		r.check(not reachable, f'str-arm:{unparse(ret)[:40]}', (EVAL, ret.lineno), f'`{unparse(ret)[:70]}` hands a str argument back unchanged without knowing that it is a quoted literal: the handlers that ignore a node return an empty string, so `X = str(E.A)` (a member reference without .value) folds to an empty string — CPython evaluates "E.A"; conditions known here: {[(unparse(c_)[:50], p_) for c_, p_ in conds][:5]}', unparse(ret)[:100])
